@@ -181,6 +181,20 @@ def gen_mm_fit(g, kind, method=None, D=None, iterations=None):
             ct = 'full'
         if kind == 'gcacgmm' or g.coin(0.7):
             opts['covariance_type'] = ct
+        if g.coin(0.25):
+            # a caller-owned covariance handed to every M-step
+            ctype = opts.get('covariance_type',
+                             'full' if kind == 'gmm' else 'spherical')
+            Dg = E if kind == 'gcacgmm' else D
+            glead = lead if kind == 'gmm' else []
+            if ctype == 'full':
+                a['fixed_covariance'] = g.arr('spd', glead + [K, Dg, Dg], load=0.3)
+            elif ctype == 'diagonal':
+                a['fixed_covariance'] = g.arr('uniform', glead + [K, Dg],
+                                              low=0.3, high=2.0)
+            else:
+                a['fixed_covariance'] = g.arr('uniform', glead + [K],
+                                              low=0.3, high=2.0)
     if integration:
         if g.coin(0.3):
             opts['inline_permutation_alignment'] = True
@@ -219,6 +233,8 @@ def run_mm_fit(ctx, a, initialization=None, iterations=None):
         extra['source_activity_mask'] = ctx.arr(a['sam'])
     if 'aligner' in a:
         extra['inline_permutation_aligner'] = ctx.aligner(a['aligner'])
+    if 'fixed_covariance' in a:
+        extra['fixed_covariance'] = ctx.arr(a['fixed_covariance'])
     sal = ctx.arr(a['saliency']) if 'saliency' in a else None
     return models.call_fit(
         kind, trainer, obs, emb, init,
